@@ -190,6 +190,24 @@ theorem command_line_rejections :
     (Args.parseArgs ["--skip=+1".toList, "--take=18446744073709551615".toList]).isSome = true := by
   decide +kernel
 
+/-- the same rejections in the other spellings: one-letter names, clusters, values in an argument of their own -/
+theorem command_line_rejections_short :
+    (Args.parseArgs ["-u".toList, "x.json".toList, "--unique".toList]).isNone = true ∧
+    (Args.parseArgs ["-uu".toList]).isNone = true ∧
+    (Args.parseArgs ["-t".toList, "1".toList, "--limit".toList, "2".toList]).isNone = true ∧
+    (Args.parseArgs ["-k".toList, "abc".toList]).isNone = true ∧
+    (Args.parseArgs ["-kabc".toList]).isNone = true ∧
+    (Args.parseArgs ["-k".toList]).isNone = true ∧
+    (Args.parseArgs ["-c".toList, "--unique".toList]).isNone = true ∧
+    (Args.parseArgs ["--choose".toList]).isNone = true ∧
+    (Args.parseArgs ["-x".toList]).isNone = true ∧
+    (Args.parseArgs ["-ux".toList]).isNone = true ∧
+    (Args.parseArgs ["-u=1".toList]).isNone = true ∧
+    (Args.parseArgs ["-o".toList, "xml".toList]).isNone = true ∧
+    (Args.parseArgs ["-g".toList, "-g.a".toList]).isNone = true ∧
+    (Args.parseArgs ["-uk".toList, "+1".toList, "-t18446744073709551615".toList, "-ocsv".toList]).isSome = true := by
+  decide +kernel
+
 /-- rejection does not depend on where the offending argument stands -/
 theorem rejection_is_order_free (a b : List Str)
     (h : Args.SameUpToFamilyOrder (Args.lexAll a) (Args.lexAll b)) :
